@@ -110,8 +110,12 @@ KINDS = {
     'numpy': np_arrays(),
     'frame': frames(),
     'series': series,
-    'generator': st.lists(json_any, max_size=6),
-    'lazy': st.lists(json_any, max_size=6),
+    # (a long sequence now and then: writers that work in blocks of a few thousand rows must not lose the seams)
+    'generator': st.one_of(st.lists(json_any, max_size=6), st.lists(json_any, max_size=6), st.lists(json_any, max_size=6),
+                           st.integers(8190, 8200).map(lambda n: list(range(n))),
+                           st.integers(16380, 16390).map(lambda n: [f's{i}' for i in range(n)])),
+    'lazy': st.one_of(st.lists(json_any, max_size=6), st.lists(json_any, max_size=6), st.lists(json_any, max_size=6),
+                      st.integers(8190, 8200).map(lambda n: list(range(n)))),
     'list_numpy': st.one_of(st.lists(np_arrays(), max_size=4), st.lists(np_arrays(), max_size=4),
                             # a long list: element files beyond 1000 must still come back in order
                             st.integers(1001, 1030).map(lambda n: [__import__('numpy').array(i, dtype='int32')
